@@ -75,9 +75,25 @@ def tok_items(tier):
 def exec_parse(item):
     r = explore.Result()
     lines = universe.materialise(item)
+    if item.get("ctrl"):
+        lines = list(lines)
+        lines.insert(min(2, len(lines)), "-- page" + item["ctrl"] + "break")
     r.transitions = 1
+    # the lines VSG reads from a real file (the product's own reader) are the lines of the file
+    from vsg.vhdlFile import utils as _vu
+
+    fp = os.path.join(drivers.scratch(), "read.vhd")
+    with open(fp, "w", encoding="utf-8", newline="\n") as f:
+        f.write("\n".join(lines) + "\n")
+    got, err = _vu.read_vhdlfile(fp)
+    if err is not None or got != lines:
+        n = min(len(got), len(lines))
+        i = next((k for k in range(n) if got[k] != lines[k]), n)
+        r.violations.append({"key": ("read", "lines_read_differ_from_lines_of_the_file"), "detail": {"line": i + 1, "file": lines[i] if i < len(lines) else None, "read": got[i] if i < len(got) else None,
+                                                                                                  "lines_in_file": len(lines), "lines_read": len(got)}, "item": common.strip_item(item)})
+        return r
     try:
-        o = base.parse(lines)
+        o = base.parse(got)
     except explore.Timeout:
         raise
     except Exception as e:  # noqa
@@ -151,7 +167,7 @@ def exec_clean(item):
         r.extra["not_clean"] = 1
         return r
     r.nontrivial = item["id"]
-    for extra in ([], ["--backup"]):
+    for extra in ([], ["--backup"], ["--force_fix"]):
         s0 = fresh()
         st, so, se, exc = drivers.d_main(["-f", path, "-p", "1", "--fix"] + style + extra)
         r.transitions += 1
@@ -189,6 +205,9 @@ def main(tier):
         pb += universe.one_dev(corpus.small_slice(max_lines=25), KB)
     else:
         pb += universe.one_dev(corpus.seed_ids(("fix", "cls")), KB) + universe.one_dev(corpus.seed_ids(("gen",)), ("WT", "WFF", "WNB", "TW", "NL", "CE", "CD", "BL", "J", "IND0"))
+    for sid in [s for s in corpus.small_slice(max_lines=25) if s.startswith("fix/")][:: (6 if tier == "quick" else 1)]:
+        for ch in ("\x0c", "\x0b", "\x1c", "\x1d", "\x1e", "\x85", "\u2028", "\u2029"):
+            pb.append(dict(universe.mk(sid), ctrl=ch, id=f"{sid}#ctrl{ord(ch):x}"))
     pc = [dict(it, mode="clean") for it in universe.zero_dev(corpus.seed_ids(("fix", "cls", "gen")), styles=(None,) if tier == "quick" else universe.K0)]
     m1 = explore.run(ta, execute, horizon=600.0, label=PROP + "a", chunk=2)
     m2 = explore.run(pb, execute, horizon=30.0, label=PROP + "b", chunk=32)
@@ -197,8 +216,9 @@ def main(tier):
     return report.finish(
         PROP, tier, "exploration", [m1, m2, m3], t0,
         "A: every string over the 26-symbol alphabet " + "".join(SIGMA).replace("\t", "\\t") + " up to length " + ("4" if tier == "quick" else "5, plus every string of length 6 over the 16-symbol core")
-        + " through tokens.create (join == input, no exception); B: vhdlFile(lines).get_lines() == lines, no unclassified token, one line-break token per line, on every variant; "
-        "C: for y = fix_c(x) of every seed, plain and -ap runs never touch the file, and if y is violation-free --fix and --fix --backup leave inode, mtime, mode and bytes unchanged; "
+        + " through tokens.create (join == input, no exception); B: every variant is written to a file and read with the product's reader (lines read == lines of the file, also with FF, VT, FS, GS, RS, NEL, LS, PS inside a comment), "
+        "then vhdlFile(lines).get_lines() == lines, no unclassified token, one line-break token per line; "
+        "C: for y = fix_c(x) of every seed, plain and -ap runs never touch the file, and if y is violation-free --fix, --fix --backup and --fix --force_fix leave inode, mtime, mode and bytes unchanged; "
         "non-trivial = tokenizer prefix classes, accepted variants, clean files",
         ["the alphabet is chosen to reach every branch of the nine tokenizer passes; strings outside it are not explored", "clean = the all-phases report of y shows zero violations"],
         extra_cov={"strings_tokenized": strings, "variants_parsed": m2.evaluations, "files_for_clean_check": m3.evaluations, "clean_files": len(m3.nontrivial),
